@@ -62,6 +62,7 @@ fn main() {
             eprintln!("panic: {info}");
         }
     }));
+    job::set_hang_recorder(record_hang_violation);
     let args: Vec<String> = std::env::args().collect();
     let cmd = args.get(1).map(|s| s.as_str()).unwrap_or("");
     let code = match cmd {
@@ -69,6 +70,7 @@ fn main() {
         "replay" => cmd_replay(&args),
         "list" => cmd_list(&args),
         "selftest" => cmd_selftest(),
+        "show" => cmd_show(&args),
         _ => {
             eprintln!("usage: sched-mc run|replay|list ...");
             2
@@ -128,6 +130,21 @@ fn cmd_selftest() -> i32 {
         }
     }
     println!("selftest: {n} driver families replay deterministically");
+    0
+}
+
+fn cmd_show(args: &[String]) -> i32 {
+    let prop = arg(args, "--prop").expect("--prop");
+    let tier = parse_tier(arg(args, "--tier"));
+    let pat = arg(args, "--job").unwrap_or("");
+    for j in families::jobs(prop, tier) {
+        if j.id.contains(pat) {
+            println!("== {}", j.id);
+            if let Some(show) = &j.show {
+                println!("{}", show());
+            }
+        }
+    }
     0
 }
 
